@@ -158,8 +158,8 @@ def HObj.step (o : HObj) (op : HOp) : Out (HObj × HOut) :=
   | .readServer script =>
     match o with
     | .comb e hc => do
-      let r ← hc.decrypt.readServerHeader e script
-      pure (.comb e { hc with decrypt := r.state }, rdOut hc.decrypt script r)
+      let r ← hc.readServerHeader e script
+      pure (.comb e r.state, rdOut hc script r)
     | .halves e en de => do
       let r ← de.readServerHeader e script
       pure (.halves e en r.state, rdOut de script r)
@@ -173,8 +173,8 @@ def HObj.step (o : HObj) (op : HOp) : Out (HObj × HOut) :=
   | .readClient script =>
     match o with
     | .comb e hc => do
-      let r ← hc.decrypt.readClientHeader e script
-      pure (.comb e { hc with decrypt := r.state }, rdOut hc.decrypt script r)
+      let r ← hc.readClientHeader e script
+      pure (.comb e r.state, rdOut hc script r)
     | .halves e en de => do
       let r ← de.readClientHeader e script
       pure (.halves e en r.state, rdOut de script r)
@@ -188,8 +188,8 @@ def HObj.step (o : HObj) (op : HOp) : Out (HObj × HOut) :=
   | .writeServer s op script =>
     match o with
     | .comb e hc => do
-      let r ← hc.encrypt.writeServerHeader e s op script
-      pure (.comb e { hc with encrypt := r.state }, wrOut r)
+      let r ← hc.writeServerHeader e s op script
+      pure (.comb e r.state, wrOut r)
     | .halves e en de => do
       let r ← en.writeServerHeader e s op script
       pure (.halves e r.state de, wrOut r)
@@ -203,8 +203,8 @@ def HObj.step (o : HObj) (op : HOp) : Out (HObj × HOut) :=
   | .writeClient s op script =>
     match o with
     | .comb e hc => do
-      let r ← hc.encrypt.writeClientHeader e s op script
-      pure (.comb e { hc with encrypt := r.state }, wrOut r)
+      let r ← hc.writeClientHeader e s op script
+      pure (.comb e r.state, wrOut r)
     | .halves e en de => do
       let r ← en.writeClientHeader e s op script
       pure (.halves e r.state de, wrOut r)
